@@ -250,6 +250,12 @@ def run_case(case, ctx):
         regular = rng.random(size) < 0.5
         regular[int(rng.integers(0, size))] = False          # at least one singular entry, anywhere
         offs = rng.uniform(0.05, 0.2, size=size) * (1 if method == 'above' else -1)
+        if case['seed'] % 3 == 0:
+            # some of the regular points lie within 1e-10 .. 5e-9 (relative) of the singular one, on the side of approach: different
+            # points all the same
+            near = rng.random(size) < 0.4
+            offs = np.where(near, 10.0 ** rng.uniform(-10, -8.3, size=size) * (1.0 + abs(z0)) * (1 if method == 'above' else -1), offs)
+            ctx.count('regular_points_very_close_to_a_singular_one', int(np.sum(near & regular)))
         zs = np.where(regular, zs + offs, zs)
         if two:
             ia, ib = [int(v) for v in rng.choice(size, size=2, replace=False)]
@@ -335,6 +341,11 @@ def run_case(case, ctx):
     with np.errstate(all='ignore'):
         direct = np.asarray(f(np.asarray(zin))).ravel()
     for k in range(len(zs)):
+        if regular[k] and not np.isfinite(direct[k]):
+            # (f itself has no finite value at this point - e.g. a square-root kernel on the other side of its branch point: the
+            # point is a singular one for the library, and not judged here)
+            ctx.count('skipped_regular_point_where_f_is_not_finite')
+            continue
         if regular[k]:
             ctx.count('regular_points_asserted')
             if np.array([val[k]]).astype(complex).tobytes() != np.array([direct[k]]).astype(complex).tobytes():
